@@ -680,6 +680,8 @@ def disagreement_key(obs, el, res, codes, positions, tns):
             if best[1].ctype is not None and not best[1].ctype.simple and best[1].ctype.content == 'elements':
                 cms.add('cm:' + xg.cm_class(best[1].ctype))
     head = 'C08:rejected-valid' if obs == 'E' else 'C08:fatal:valid'
+    if 'nil-false' in res.feats:
+        feats.add('nil-false')      # its effect reaches children and following siblings
     ex = explain(feats) or explain(res.feats)
     if ex:
         return '%s:%s' % (head, ex)
@@ -843,7 +845,7 @@ def stage_generated(ck, binary, tier, nproc, cov):
                     cls = 'F' if (fatal is not None or st.status != 'ok') else 'E' if bad else 'V'
                     stats['batch_disagreements_rechecked'] += 1
                     if cls != bcls:
-                        ck.violation('C08:context-dependent:%s:%s' % ('+'.join(rules) or 'valid', explain(feats) or bline[1]),
+                        ck.violation('C08:context-dependent:%s:%s' % ('+'.join(rules) or 'valid', bline[1] if bline[1] != 'plain' else (explain(feats) or 'plain')),
                                      'verdict class for the same element differs between stand-alone document and as a child of the wrapper (%s vs %s)' % (cls, bcls),
                                      {'case': bcase.to_json(), 'line_in_batch': bline[0], 'stand_alone_case': c.to_json(), 'instance': xml, 'schema': w['docs'][0][1].decode()})
                     if cls != ('E' if rules else 'V'):
